@@ -254,3 +254,126 @@ func ruleCompletionNoNilDeref(c *Ctx, a *cacheAnchors) {
 }
 
 var _ = types.Typ
+
+// rulePeriodUnits: the hit-for-pass period the dispatcher keeps is a number of
+// seconds: the option's value as given, or a small constant; never a
+// time.Duration (nanoseconds) squeezed into the int.
+func rulePeriodUnits(c *Ctx) {
+	fn := c.P.Func("cache", "NewDispatcher")
+	fld := c.P.StructField("cache", "dispatcher", "hitForPass")
+	if fn == nil {
+		c.undecided("period-units", "cache.NewDispatcher", "-", "not found")
+		return
+	}
+	n := 0
+	bad := []string{}
+	c.P.Simulate(fn, SimConfig{}, func(pr *PathResult) {
+		for _, e := range pr.Events {
+			if e.Kind != "store" || e.Addr.Op != "fa" {
+				continue
+			}
+			fv, ok := e.Addr.Obj.(*types.Var)
+			if !ok || !isIntType(fv.Type()) {
+				continue
+			}
+			if fld != nil && fv != fld {
+				continue
+			}
+			if fld == nil && !strings.Contains(strings.ToLower(fv.Name()), "pass") {
+				continue
+			}
+			n++
+			v := e.Val
+			if k, ok := v.IntVal(); ok && k > 366*24*3600 {
+				bad = append(bad, fmt.Sprintf("the dispatcher's %s is set to the constant %d: a duration in nanoseconds stored where seconds are expected (the period never ends)", fv.Name(), k))
+			}
+			if v.contains(func(x *Term) bool {
+				if x.Type == nil {
+					return false
+				}
+				nt, ok := x.Type.(*types.Named)
+				return ok && nt.Obj().Pkg() != nil && nt.Obj().Pkg().Path() == "time" && nt.Obj().Name() == "Duration"
+			}) {
+				bad = append(bad, "the dispatcher's "+fv.Name()+" is computed from a time.Duration ("+prettyTerm(v)+"): nanoseconds stored where seconds are expected")
+			}
+		}
+	})
+	if n == 0 {
+		c.undecided("period-units", funcName(fn), c.P.pos(fn.Pos()), "no store of the hit-for-pass period found")
+		return
+	}
+	c.check(len(bad) == 0, "period-units", funcName(fn), c.P.pos(fn.Pos()), fmt.Sprintf("%d stores of the period: the option's seconds as given", n), strings.Join(uniq(bad), " || "), n)
+}
+
+// ruleRewriteChain: a location's rewrite rules are applied in sequence: each
+// rule is matched against the path the previous rules produced, and the last
+// result is what the request gets.
+func ruleRewriteChain(c *Ctx) {
+	gen := c.P.Func("location", "generateURLRewriter")
+	if gen == nil {
+		c.undecided("rewrite-chain", "location.generateURLRewriter", "-", "not found")
+		return
+	}
+	var lit *ssa.Function
+	for _, af := range gen.AnonFuncs {
+		if len(af.Params) == 1 && strings.HasSuffix(af.Params[0].Type().String(), "net/http.Request") {
+			lit = af
+		}
+	}
+	if lit == nil {
+		c.undecided("rewrite-chain", funcName(gen), c.P.pos(gen.Pos()), "the rewriter closure was not recognised")
+		return
+	}
+	isRegexp := func(t *Term) bool {
+		return t != nil && t.Type != nil && strings.HasSuffix(t.Type.String(), "regexp.Regexp")
+	}
+	n, chained := 0, 0
+	bad := []string{}
+	sim := c.P.Simulate(lit, SimConfig{MaxVisits: 3}, func(pr *PathResult) {
+		n++
+		var prevIn *Term  // the path the previous rule was matched against
+		var produced []*Term // strings produced since then
+		for _, e := range pr.Events {
+			if e.Kind != "call" && e.Kind != "invoke" {
+				continue
+			}
+			var in *Term
+			hasRe := false
+			for _, a := range e.Args {
+				if isRegexp(a) {
+					hasRe = true
+				} else if a != nil && isStringType(a.Type) && in == nil {
+					in = a
+				}
+			}
+			if hasRe && in != nil {
+				if prevIn != nil {
+					chained++
+					switch {
+					case produced != nil && !in.contains(func(x *Term) bool {
+						for _, pt := range produced {
+							if x.Key() == pt.Key() {
+								return true
+							}
+						}
+						return false
+					}):
+						bad = append(bad, fmt.Sprintf("%s: a rule is matched against %s although the previous rule produced %s: the rules are not chained (a later rule never sees the earlier rule's result)", c.P.pos(e.Instr.Pos()), prettyTerm(in), prettyTerm(produced[len(produced)-1])))
+					case produced == nil && in.Key() != prevIn.Key():
+						bad = append(bad, fmt.Sprintf("%s: a rule is matched against %s although the previous rule, which did not apply, was matched against %s", c.P.pos(e.Instr.Pos()), prettyTerm(in), prettyTerm(prevIn)))
+					}
+				}
+				prevIn, produced = in, nil
+				continue
+			}
+			if prevIn != nil && e.Result != nil && isStringType(e.Result.Type) {
+				produced = append(produced, e.Result)
+			}
+		}
+	})
+	if sim.Overflow || chained == 0 {
+		c.undecided("rewrite-chain", funcName(lit), c.P.pos(lit.Pos()), "no path applies two rules in sequence: idiom not recognised")
+		return
+	}
+	c.check(len(bad) == 0, "rewrite-chain", funcName(lit), c.P.pos(lit.Pos()), fmt.Sprintf("%d paths, %d successive rule applications: each rule is matched against the previous rule's result", n, chained), strings.Join(uniq(bad), " || "), chained)
+}
